@@ -88,7 +88,7 @@ func genOneResponse(e *Env, b *bytes.Buffer, status string) bool {
 func genResponses(e *Env) ([]byte, []c08Resp) {
 	var b bytes.Buffer
 	var meta []c08Resp
-	finals := []string{"200", "204", "304", "404", "999", "099", "042", "000", "101", "600"}
+	finals := []string{"200", "204", "304", "404", "999", "099", "042", "007", "101", "600"} // not "000": StatusCode() reports a zero status as 200
 	interims := []string{"100", "102", "103", "199"}
 	used := map[string]bool{}
 	pick := func(xs []string) string {
